@@ -1,8 +1,960 @@
 import QP.Base
+/-!
+# C10 — stored pulse templates load back as the same pulse
+
+Executable model of `qupulse/serialization.py` (`PulseStorage`, `JSONSerializableEncoder.default`,
+`JSONSerializableDecoder.filter_serializables`) and of the `get_serialization_data` / `deserialize` /
+`__init__` triples of every serialisable pulse-template class.
+
+* `J`     — JSON values. Expressions, numbers, names … are opaque atoms at this level (their printed
+            form is sympy's / the json library's business).
+* `T`     — a pulse-template *object*: class, optional identifier and its serialisation-relevant
+            attributes in the class's key order (`Item`s: plain data, one child template, a list of
+            child templates). One smart constructor per class (`T.table`, `T.seq`, …) and one `schema`
+            row per class (which key is required / defaulted / omitted when equal to its default /
+            absent when `None`).
+* `body`/`emit` — the document of a node / what a parent's document contains for it
+            (`{"#type":"reference","#identifier":id}` for a named child, the embedded document otherwise).
+* `encT … setitem / overwrite / storeAll` — the code as it runs: encoder walking the serialisation
+            dict in sorted key order, `storage[id] = o` for every named child that is not yet in the
+            storage, the transaction dictionary, the `put`s in transaction order, the temporary storage.
+* `decT / construct / load` — `filter_serializables` + `cls(**kwargs)` with the constructor defaults,
+            references resolved through the storage (fuel = recursion depth).
+* `loadC` — the same with `PulseStorage._temporary_storage` as a cache and a log of constructed objects.
+
+No Mathlib. Python object identity (`o is storage[id]`) is modelled as structural equality.
+-/
 namespace QP.C10
+
+abbrev Id := String
+
+/-! ## JSON values -/
+
+inductive J where
+  | atom (a : String)          -- opaque leaf: number, expression string, channel name, bool, null …
+  | str (s : String)           -- a string the model looks at (type names, identifiers)
+  | arr (xs : List J)
+  | obj (kvs : List (String × J))
+  deriving Repr, Inhabited
+
+mutual
+def J.decEq : (a b : J) → Decidable (a = b)
+  | .atom x, .atom y => if h : x = y then isTrue (by rw [h]) else isFalse (by intro e; cases e; exact h rfl)
+  | .str x, .str y => if h : x = y then isTrue (by rw [h]) else isFalse (by intro e; cases e; exact h rfl)
+  | .arr x, .arr y => match J.decEqL x y with
+      | isTrue h => isTrue (by rw [h])
+      | isFalse h => isFalse (by intro e; cases e; exact h rfl)
+  | .obj x, .obj y => match J.decEqKV x y with
+      | isTrue h => isTrue (by rw [h])
+      | isFalse h => isFalse (by intro e; cases e; exact h rfl)
+  | .atom _, .str _ | .atom _, .arr _ | .atom _, .obj _ => isFalse (by intro e; cases e)
+  | .str _, .atom _ | .str _, .arr _ | .str _, .obj _ => isFalse (by intro e; cases e)
+  | .arr _, .atom _ | .arr _, .str _ | .arr _, .obj _ => isFalse (by intro e; cases e)
+  | .obj _, .atom _ | .obj _, .str _ | .obj _, .arr _ => isFalse (by intro e; cases e)
+def J.decEqL : (a b : List J) → Decidable (a = b)
+  | [], [] => isTrue rfl
+  | [], _ :: _ => isFalse (by intro e; cases e)
+  | _ :: _, [] => isFalse (by intro e; cases e)
+  | x :: xs, y :: ys => match J.decEq x y, J.decEqL xs ys with
+      | isTrue h1, isTrue h2 => isTrue (by rw [h1, h2])
+      | isFalse h, _ => isFalse (by intro e; cases e; exact h rfl)
+      | _, isFalse h => isFalse (by intro e; cases e; exact h rfl)
+def J.decEqKV : (a b : List (String × J)) → Decidable (a = b)
+  | [], [] => isTrue rfl
+  | [], _ :: _ => isFalse (by intro e; cases e)
+  | _ :: _, [] => isFalse (by intro e; cases e)
+  | (k1, x) :: xs, (k2, y) :: ys =>
+      if hk : k1 = k2 then
+        match J.decEq x y, J.decEqKV xs ys with
+        | isTrue h1, isTrue h2 => isTrue (by rw [hk, h1, h2])
+        | isFalse h, _ => isFalse (by intro e; cases e; exact h rfl)
+        | _, isFalse h => isFalse (by intro e; cases e; exact h rfl)
+      else isFalse (by intro e; cases e; exact hk rfl)
+end
+instance : DecidableEq J := J.decEq
+
+/-- dictionary lookup (first match) -/
+def lookup {α} (k : String) : List (String × α) → Option α
+  | [] => none
+  | (k', v) :: rest => if k' = k then some v else lookup k rest
+
+def typeKey : String := "#type"
+def idKey : String := "#identifier"
+
+/-- a JSON object carrying a `#type` key: what `filter_serializables` turns into an object -/
+def J.isTyped : J → Bool
+  | .obj kvs => (lookup typeKey kvs).isSome
+  | _ => false
+
+/-- the reference document for identifier `i` -/
+def ref (i : Id) : J := .obj [(idKey, .str i), (typeKey, .str "reference")]
+
+mutual
+/-- plain data: no object with a `#type` key anywhere inside (the decoder leaves it untouched) -/
+def J.plain : J → Bool
+  | .atom _ => true
+  | .str _ => true
+  | .arr xs => J.plainL xs
+  | .obj kvs => (lookup typeKey kvs).isNone && J.plainKV kvs
+def J.plainL : List J → Bool
+  | [] => true
+  | x :: xs => J.plain x && J.plainL xs
+def J.plainKV : List (String × J) → Bool
+  | [] => true
+  | (_, v) :: rest => J.plain v && J.plainKV rest
+end
+
+mutual
+/-- identifiers referenced anywhere inside a document, in document order -/
+def J.refs : J → List Id
+  | .atom _ => []
+  | .str _ => []
+  | .arr xs => J.refsL xs
+  | .obj kvs =>
+      match lookup typeKey kvs, lookup idKey kvs with
+      | some (.str "reference"), some (.str i) => [i]
+      | _, _ => J.refsKV kvs
+def J.refsL : List J → List Id
+  | [] => []
+  | x :: xs => J.refs x ++ J.refsL xs
+def J.refsKV : List (String × J) → List Id
+  | [] => []
+  | (_, v) :: rest => J.refs v ++ J.refsKV rest
+end
+
+/-! ## Classes and their serialisation schema -/
+
+inductive Cls where
+  | table | point | func | const | seq | rep | forLoop | mapping | amc | par | arithAtomic | arith
+  | timeRev | abstr
+  deriving DecidableEq, Repr, Inhabited
+
+def Cls.all : List Cls :=
+  [.table, .point, .func, .const, .seq, .rep, .forLoop, .mapping, .amc, .par, .arithAtomic, .arith,
+   .timeRev, .abstr]
+
+/-- `Serializable.get_type_identifier`: `module.ClassName` -/
+def Cls.typeName : Cls → String
+  | .table => "qupulse.pulses.table_pulse_template.TablePulseTemplate"
+  | .point => "qupulse.pulses.point_pulse_template.PointPulseTemplate"
+  | .func => "qupulse.pulses.function_pulse_template.FunctionPulseTemplate"
+  | .const => "qupulse.pulses.constant_pulse_template.ConstantPulseTemplate"
+  | .seq => "qupulse.pulses.sequence_pulse_template.SequencePulseTemplate"
+  | .rep => "qupulse.pulses.repetition_pulse_template.RepetitionPulseTemplate"
+  | .forLoop => "qupulse.pulses.loop_pulse_template.ForLoopPulseTemplate"
+  | .mapping => "qupulse.pulses.mapping_pulse_template.MappingPulseTemplate"
+  | .amc => "qupulse.pulses.multi_channel_pulse_template.AtomicMultiChannelPulseTemplate"
+  | .par => "qupulse.pulses.multi_channel_pulse_template.ParallelChannelPulseTemplate"
+  | .arithAtomic => "qupulse.pulses.arithmetic_pulse_template.ArithmeticAtomicPulseTemplate"
+  | .arith => "qupulse.pulses.arithmetic_pulse_template.ArithmeticPulseTemplate"
+  | .timeRev => "qupulse.pulses.time_reversal_pulse_template.TimeReversalPulseTemplate"
+  | .abstr => "qupulse.pulses.abstract_pulse_template.AbstractPulseTemplate"
+
+/-- the type identifiers written by the predecessor package: `qctoolkit.` instead of `qupulse.` -/
+def Cls.legacyTypeName : Cls → String
+  | .table => "qctoolkit.pulses.table_pulse_template.TablePulseTemplate"
+  | .point => "qctoolkit.pulses.point_pulse_template.PointPulseTemplate"
+  | .func => "qctoolkit.pulses.function_pulse_template.FunctionPulseTemplate"
+  | .const => "qctoolkit.pulses.constant_pulse_template.ConstantPulseTemplate"
+  | .seq => "qctoolkit.pulses.sequence_pulse_template.SequencePulseTemplate"
+  | .rep => "qctoolkit.pulses.repetition_pulse_template.RepetitionPulseTemplate"
+  | .forLoop => "qctoolkit.pulses.loop_pulse_template.ForLoopPulseTemplate"
+  | .mapping => "qctoolkit.pulses.mapping_pulse_template.MappingPulseTemplate"
+  | .amc => "qctoolkit.pulses.multi_channel_pulse_template.AtomicMultiChannelPulseTemplate"
+  | .par => "qctoolkit.pulses.multi_channel_pulse_template.ParallelChannelPulseTemplate"
+  | .arithAtomic => "qctoolkit.pulses.arithmetic_pulse_template.ArithmeticAtomicPulseTemplate"
+  | .arith => "qctoolkit.pulses.arithmetic_pulse_template.ArithmeticPulseTemplate"
+  | .timeRev => "qctoolkit.pulses.time_reversal_pulse_template.TimeReversalPulseTemplate"
+  | .abstr => "qctoolkit.pulses.abstract_pulse_template.AbstractPulseTemplate"
+
+/-- `DeserializationCallbackFinder.__getitem__` (with the `qctoolkit.` → `qupulse.` alias) -/
+def Cls.ofTypeName (s : String) : Option Cls :=
+  Cls.all.find? (fun c => c.typeName = s || c.legacyTypeName = s)
+
+inductive Shape where
+  | data        -- plain JSON data
+  | child       -- one pulse template
+  | children    -- a non-empty list of pulse templates
+  | any         -- data or one pulse template (operands of ArithmeticPulseTemplate)
+  deriving DecidableEq, Repr
+
+/-- How `get_serialization_data` / `__init__` treat one key. -/
+inductive Kind where
+  | req                       -- required constructor argument, always written
+  | dflt (d : J)              -- argument with default `d`, always written
+  | omitDefault (d : J)       -- argument with default `d`, written only when the attribute differs from `d`
+                              --   (`if self.parameter_constraints:` … for list/dict valued attributes)
+  | absent                    -- default `None`: the attribute does not exist then; written iff it exists
+  deriving Repr
+
+structure Spec where
+  key : String
+  shape : Shape
+  kind : Kind
+  deriving Repr
+
+def eArr : J := .arr []
+def eObj : J := .obj []
+
+/-- Keys in the order the encoder visits them (`sort_keys=True`). -/
+def schema : Cls → List Spec
+  | .table =>
+    [⟨"consistency_check", .data, .omitDefault (.atom "true")⟩,
+     ⟨"entries", .data, .req⟩,
+     ⟨"measurements", .data, .dflt eArr⟩,
+     ⟨"parameter_constraints", .data, .dflt eArr⟩]
+  | .point =>
+    [⟨"channel_names", .data, .req⟩,
+     ⟨"measurements", .data, .omitDefault eArr⟩,
+     ⟨"parameter_constraints", .data, .omitDefault eArr⟩,
+     ⟨"time_point_tuple_list", .data, .req⟩]
+  | .func =>
+    [⟨"channel", .data, .dflt (.atom "\"default\"")⟩,
+     ⟨"duration_expression", .data, .req⟩,
+     ⟨"expression", .data, .req⟩,
+     ⟨"measurements", .data, .dflt eArr⟩,
+     ⟨"parameter_constraints", .data, .dflt eArr⟩]
+  | .const =>
+    [⟨"amplitude_dict", .data, .req⟩,
+     ⟨"duration", .data, .req⟩,
+     ⟨"measurements", .data, .dflt eArr⟩,
+     ⟨"name", .data, .dflt (.atom "\"constant_pulse\"")⟩]
+  | .seq =>
+    [⟨"measurements", .data, .omitDefault eArr⟩,
+     ⟨"parameter_constraints", .data, .omitDefault eArr⟩,
+     ⟨"subtemplates", .children, .req⟩]
+  | .rep =>
+    [⟨"body", .child, .req⟩,
+     ⟨"measurements", .data, .omitDefault eArr⟩,
+     ⟨"parameter_constraints", .data, .omitDefault eArr⟩,
+     ⟨"repetition_count", .data, .req⟩]
+  | .forLoop =>
+    [⟨"body", .child, .req⟩,
+     ⟨"loop_index", .data, .req⟩,
+     ⟨"loop_range", .data, .req⟩,
+     ⟨"measurements", .data, .omitDefault eArr⟩,
+     ⟨"parameter_constraints", .data, .omitDefault eArr⟩]
+  | .mapping =>
+    [⟨"channel_mapping", .data, .omitDefault eObj⟩,
+     ⟨"measurement_mapping", .data, .omitDefault eObj⟩,
+     ⟨"parameter_constraints", .data, .omitDefault eArr⟩,
+     ⟨"parameter_mapping", .data, .omitDefault eObj⟩,
+     ⟨"template", .child, .req⟩]
+  | .amc =>
+    [⟨"duration", .data, .absent⟩,
+     ⟨"measurements", .data, .omitDefault eArr⟩,
+     ⟨"parameter_constraints", .data, .omitDefault eArr⟩,
+     ⟨"subtemplates", .children, .req⟩]
+  | .par =>
+    [⟨"overwritten_channels", .data, .req⟩,
+     ⟨"template", .child, .req⟩]
+  | .arithAtomic =>
+    [⟨"arithmetic_operator", .data, .req⟩,
+     ⟨"lhs", .child, .req⟩,
+     ⟨"measurements", .data, .omitDefault eArr⟩,
+     ⟨"rhs", .child, .req⟩]
+  | .arith =>
+    [⟨"arithmetic_operator", .data, .req⟩,
+     ⟨"lhs", .any, .req⟩,
+     ⟨"rhs", .any, .req⟩]
+  | .timeRev =>
+    [⟨"inner", .child, .req⟩]
+  | .abstr =>
+    [⟨"defined_channels", .data, .absent⟩,
+     ⟨"duration", .data, .absent⟩,
+     ⟨"integral", .data, .absent⟩,
+     ⟨"measurement_names", .data, .absent⟩,
+     ⟨"parameter_names", .data, .absent⟩]
+
+/-! ## Template objects -/
+
+mutual
+inductive T where
+  | node (cls : Cls) (id : Option Id) (items : List Item)
+inductive Item where
+  | data (k : String) (j : J)
+  | child (k : String) (t : T)
+  | children (k : String) (ts : List T)
+end
+
+instance : Inhabited T := ⟨.node .timeRev none []⟩
+instance : Inhabited Item := ⟨.data "" (.atom "")⟩
+
+mutual
+def T.decEq : (a b : T) → Decidable (a = b)
+  | .node c1 i1 x1, .node c2 i2 x2 =>
+      if hc : c1 = c2 then
+        if hi : i1 = i2 then
+          match Item.decEqL x1 x2 with
+          | isTrue h => isTrue (by rw [hc, hi, h])
+          | isFalse h => isFalse (by intro e; cases e; exact h rfl)
+        else isFalse (by intro e; cases e; exact hi rfl)
+      else isFalse (by intro e; cases e; exact hc rfl)
+termination_by structural a => a
+def Item.decEq : (a b : Item) → Decidable (a = b)
+  | .data k1 j1, .data k2 j2 =>
+      if hk : k1 = k2 then
+        if hj : j1 = j2 then isTrue (by rw [hk, hj]) else isFalse (by intro e; cases e; exact hj rfl)
+      else isFalse (by intro e; cases e; exact hk rfl)
+  | .child k1 t1, .child k2 t2 =>
+      if hk : k1 = k2 then
+        match T.decEq t1 t2 with
+        | isTrue h => isTrue (by rw [hk, h])
+        | isFalse h => isFalse (by intro e; cases e; exact h rfl)
+      else isFalse (by intro e; cases e; exact hk rfl)
+  | .children k1 t1, .children k2 t2 =>
+      if hk : k1 = k2 then
+        match T.decEqL t1 t2 with
+        | isTrue h => isTrue (by rw [hk, h])
+        | isFalse h => isFalse (by intro e; cases e; exact h rfl)
+      else isFalse (by intro e; cases e; exact hk rfl)
+  | .data _ _, .child _ _ | .data _ _, .children _ _ => isFalse (by intro e; cases e)
+  | .child _ _, .data _ _ | .child _ _, .children _ _ => isFalse (by intro e; cases e)
+  | .children _ _, .data _ _ | .children _ _, .child _ _ => isFalse (by intro e; cases e)
+termination_by structural a => a
+def Item.decEqL : (a b : List Item) → Decidable (a = b)
+  | [], [] => isTrue rfl
+  | [], _ :: _ => isFalse (by intro e; cases e)
+  | _ :: _, [] => isFalse (by intro e; cases e)
+  | x :: xs, y :: ys => match Item.decEq x y, Item.decEqL xs ys with
+      | isTrue h1, isTrue h2 => isTrue (by rw [h1, h2])
+      | isFalse h, _ => isFalse (by intro e; cases e; exact h rfl)
+      | _, isFalse h => isFalse (by intro e; cases e; exact h rfl)
+termination_by structural a => a
+def T.decEqL : (a b : List T) → Decidable (a = b)
+  | [], [] => isTrue rfl
+  | [], _ :: _ => isFalse (by intro e; cases e)
+  | _ :: _, [] => isFalse (by intro e; cases e)
+  | x :: xs, y :: ys => match T.decEq x y, T.decEqL xs ys with
+      | isTrue h1, isTrue h2 => isTrue (by rw [h1, h2])
+      | isFalse h, _ => isFalse (by intro e; cases e; exact h rfl)
+      | _, isFalse h => isFalse (by intro e; cases e; exact h rfl)
+termination_by structural a => a
+end
+instance : DecidableEq T := T.decEq
+instance : DecidableEq Item := Item.decEq
+
+def T.cls : T → Cls | .node c _ _ => c
+def T.id : T → Option Id | .node _ i _ => i
+def T.items : T → List Item | .node _ _ xs => xs
+def Item.key : Item → String
+  | .data k _ => k
+  | .child k _ => k
+  | .children k _ => k
+
+/-! ### One constructor per serialisable pulse-template class
+
+The arguments are the object's attributes after `__init__` normalised them (lists, not tuples;
+`Expression` objects as their opaque serialised atom). -/
+
+def T.table (id : Option Id) (entries : J) (meas cons : List J) (consistencyCheck : Bool := true) : T :=
+  .node .table id [.data "consistency_check" (.atom (if consistencyCheck then "true" else "false")),
+                   .data "entries" entries, .data "measurements" (.arr meas),
+                   .data "parameter_constraints" (.arr cons)]
+def T.point (id : Option Id) (points channels : J) (meas cons : List J) : T :=
+  .node .point id [.data "channel_names" channels, .data "measurements" (.arr meas),
+                   .data "parameter_constraints" (.arr cons), .data "time_point_tuple_list" points]
+def T.func (id : Option Id) (expr dur channel : J) (meas cons : List J) : T :=
+  .node .func id [.data "channel" channel, .data "duration_expression" dur, .data "expression" expr,
+                  .data "measurements" (.arr meas), .data "parameter_constraints" (.arr cons)]
+def T.const (id : Option Id) (dur amps name : J) (meas : List J) : T :=
+  .node .const id [.data "amplitude_dict" amps, .data "duration" dur, .data "measurements" (.arr meas),
+                   .data "name" name]
+def T.seq (id : Option Id) (subs : List T) (meas cons : List J) : T :=
+  .node .seq id [.data "measurements" (.arr meas), .data "parameter_constraints" (.arr cons),
+                 .children "subtemplates" subs]
+def T.rep (id : Option Id) (body : T) (count : J) (meas cons : List J) : T :=
+  .node .rep id [.child "body" body, .data "measurements" (.arr meas),
+                 .data "parameter_constraints" (.arr cons), .data "repetition_count" count]
+def T.forLoop (id : Option Id) (body : T) (index range : J) (meas cons : List J) : T :=
+  .node .forLoop id [.child "body" body, .data "loop_index" index, .data "loop_range" range,
+                     .data "measurements" (.arr meas), .data "parameter_constraints" (.arr cons)]
+def T.mapping (id : Option Id) (template : T) (pmap mmap cmap : List (String × J)) (cons : List J) : T :=
+  .node .mapping id [.data "channel_mapping" (.obj cmap), .data "measurement_mapping" (.obj mmap),
+                     .data "parameter_constraints" (.arr cons), .data "parameter_mapping" (.obj pmap),
+                     .child "template" template]
+def T.amc (id : Option Id) (subs : List T) (meas cons : List J) (duration : Option J := none) : T :=
+  .node .amc id ((match duration with | some d => [.data "duration" d] | none => []) ++
+                 [.data "measurements" (.arr meas), .data "parameter_constraints" (.arr cons),
+                  .children "subtemplates" subs])
+def T.par (id : Option Id) (template : T) (overwritten : J) : T :=
+  .node .par id [.data "overwritten_channels" overwritten, .child "template" template]
+def T.arithAtomic (id : Option Id) (lhs : T) (op : J) (rhs : T) (meas : List J) : T :=
+  .node .arithAtomic id [.data "arithmetic_operator" op, .child "lhs" lhs, .data "measurements" (.arr meas),
+                         .child "rhs" rhs]
+/-- pulse template ∘ scalar -/
+def T.arithL (id : Option Id) (lhs : T) (op : J) (rhs : J) : T :=
+  .node .arith id [.data "arithmetic_operator" op, .child "lhs" lhs, .data "rhs" rhs]
+/-- scalar ∘ pulse template -/
+def T.arithR (id : Option Id) (lhs : J) (op : J) (rhs : T) : T :=
+  .node .arith id [.data "arithmetic_operator" op, .data "lhs" lhs, .child "rhs" rhs]
+def T.timeRev (id : Option Id) (inner : T) : T :=
+  .node .timeRev id [.child "inner" inner]
+/-- `props`: the declared properties, a sub-list of the five schema keys in schema order -/
+def T.abstr (id : Id) (props : List (String × J)) : T :=
+  .node .abstr (some id) (props.map fun (k, v) => .data k v)
+
+/-! ## What the code writes: documents -/
+
+def hdr (cls : Cls) (id : Option Id) : List (String × J) :=
+  (match id with | some i => [(idKey, .str i)] | none => []) ++ [(typeKey, .str cls.typeName)]
+
+def kindOf (cls : Cls) (k : String) : Option Kind :=
+  ((schema cls).find? (fun sp => sp.key = k)).map (·.kind)
+
+/-- is this attribute written by `get_serialization_data`? -/
+def emitted (cls : Cls) : Item → Bool
+  | .data k j => match kindOf cls k with
+      | some (.omitDefault d) => j ≠ d
+      | _ => true
+  | _ => true
+
+mutual
+/-- the full document of a node (`#identifier`, `#type`, written attributes; children via `emit`) -/
+def body : T → J
+  | .node cls id items => .obj (hdr cls id ++ bodyItems cls items)
+/-- what the encoder returns for a template inside another document -/
+def emit : T → J
+  | .node cls id items =>
+    match id with
+    | some i => ref i
+    | none => .obj (hdr cls none ++ bodyItems cls items)
+def bodyItems (cls : Cls) : List Item → List (String × J)
+  | [] => []
+  | .data k j :: rest => if emitted cls (.data k j) then (k, j) :: bodyItems cls rest else bodyItems cls rest
+  | .child k t :: rest => (k, emit t) :: bodyItems cls rest
+  | .children k ts :: rest => (k, .arr (emitList ts)) :: bodyItems cls rest
+def emitList : List T → List J
+  | [] => []
+  | t :: ts => emit t :: emitList ts
+end
+
+mutual
+/-- all nodes of a tree, children before parents, in encoder visiting order -/
+def subterms : T → List T
+  | .node cls id items => subtermsItems items ++ [.node cls id items]
+def subtermsItems : List Item → List T
+  | [] => []
+  | .data _ _ :: rest => subtermsItems rest
+  | .child _ t :: rest => subterms t ++ subtermsItems rest
+  | .children _ ts :: rest => subtermsList ts ++ subtermsItems rest
+def subtermsList : List T → List T
+  | [] => []
+  | t :: ts => subterms t ++ subtermsList ts
+end
+
+def T.named (t : T) : Bool := t.id.isSome
+
+/-- the named nodes of a tree, children first -/
+def namedSub (t : T) : List T := (subterms t).filter T.named
+
+mutual
+def depth : T → Nat
+  | .node _ _ items => 1 + depthItems items
+def depthItems : List Item → Nat
+  | [] => 0
+  | .data _ _ :: rest => depthItems rest
+  | .child _ t :: rest => max (depth t) (depthItems rest)
+  | .children _ ts :: rest => max (depthList ts) (depthItems rest)
+def depthList : List T → Nat
+  | [] => 0
+  | t :: ts => max (depth t) (depthList ts)
+end
+
+/-! ## Errors -/
+
+inductive Err where
+  | valueError       -- `ValueError` (wrong identifier in `__setitem__`; constructor failure wrapped by the decoder)
+  | idTaken          -- `RuntimeError('Identifier assigned twice …' / '… already taken' / '… already assigned in storage backend')
+  | keyError         -- reference / identifier not in the backend
+  | refWithoutId     -- `RuntimeError('Reference without identifier')`
+  | unknownType      -- no deserialisation callback for `#type`
+  | notSerializable  -- the document is not an object with a `#type` key
+  | unmodelled       -- constructor behaviour outside the model (flattening of a nested anonymous mapping)
+  | fuel             -- recursion depth exhausted
+  deriving DecidableEq, Repr, Inhabited
+
+/-! ## The storage as it runs -/
+
+abbrev Store := List (Id × J)
+
+/-- `backend.put(id, doc, overwrite=True)`: replace in place or append -/
+def put {α} (i : Id) (d : α) : List (Id × α) → List (Id × α)
+  | [] => [(i, d)]
+  | (k, v) :: rest => if k = i then (k, d) :: rest else (k, v) :: put i d rest
+
+def hasKey {α} (i : Id) (s : List (Id × α)) : Bool := (lookup i s).isSome
+
+/-- A `PulseStorage` over a backend: backend contents and `_temporary_storage`. -/
+structure St where
+  backend : Store := []
+  temp : List (Id × T) := []
+  deriving Inhabited
+
+/-- `identifier in self` -/
+def St.has (st : St) (i : Id) : Bool := hasKey i st.temp || hasKey i st.backend
+
+/-- `_transaction_storage`: insertion ordered, a repeated key keeps its position -/
+abbrev Txn := List (Id × (J × T))
+
+mutual
+/-- `JSONSerializableEncoder.default(o)` for a `Serializable` `o`, inside an open transaction. -/
+def encT (st : St) : Txn → T → Except Err (Txn × J)
+  | txn, .node cls id items =>
+    match id with
+    | none => do
+        let (txn', kvs) ← encItems st cls txn items
+        pure (txn', .obj (hdr cls none ++ kvs))
+    | some i =>
+        if st.has i then
+          -- `elif o is not self.storage[o.identifier]: raise RuntimeError`; an entry that is only in the
+          -- backend is deserialised into a new object, which is never `o`
+          match lookup i st.temp with
+          | some o => if o = .node cls id items then pure (txn, ref i) else throw .idTaken
+          | none => throw .idTaken
+        else
+          -- `self.storage[o.identifier] = o` → `__setitem__` → nested `overwrite`
+          match lookup i txn with
+          | some e =>
+              -- "nested Serializable that was already collected during this transaction"
+              if e.2 = .node cls id items then pure (txn, ref i) else throw .idTaken
+          | none => do
+              let (txn', kvs) ← encItems st cls txn items
+              -- "one of the nested Serializables uses the identifier of the Serializable that contains it"
+              if hasKey i txn' then throw .idTaken
+              pure (put i (.obj (hdr cls id ++ kvs), .node cls id items) txn', ref i)
+def encItems (st : St) (cls : Cls) : Txn → List Item → Except Err (Txn × List (String × J))
+  | txn, [] => pure (txn, [])
+  | txn, .data k j :: rest =>
+      if emitted cls (.data k j) then do
+        let (t2, kvs) ← encItems st cls txn rest
+        pure (t2, (k, j) :: kvs)
+      else encItems st cls txn rest
+  | txn, .child k t :: rest => do
+      let (t1, j) ← encT st txn t
+      let (t2, kvs) ← encItems st cls t1 rest
+      pure (t2, (k, j) :: kvs)
+  | txn, .children k ts :: rest => do
+      let (t1, js) ← encList st txn ts
+      let (t2, kvs) ← encItems st cls t1 rest
+      pure (t2, (k, .arr js) :: kvs)
+def encList (st : St) : Txn → List T → Except Err (Txn × List J)
+  | txn, [] => pure (txn, [])
+  | txn, t :: ts => do
+      let (t1, j) ← encT st txn t
+      let (t2, js) ← encList st t1 ts
+      pure (t2, j :: js)
+end
+
+/-- write a finished transaction: `put` every entry in transaction order, then publish to the
+temporary storage -/
+def commit (st : St) (txn : Txn) : St :=
+  { backend := txn.foldl (fun b e => put e.1 e.2.1 b) st.backend
+    temp := txn.foldl (fun m e => put e.1 e.2.2 m) st.temp }
+
+/-- `PulseStorage.overwrite(identifier, serializable)` at transaction begin. Returns the new state and
+the `(identifier, document)` pairs in the order they were `put`. -/
+def overwrite (st : St) (i : Id) (t : T) : Except Err (St × List (Id × J)) :=
+  match t with
+  | .node cls id items => do
+      let (txn, kvs) ← encItems st cls [] items
+      if hasKey i txn then throw .idTaken   -- a nested template uses the identifier of the root
+      let txn := put i (.obj (hdr cls id ++ kvs), .node cls id items) txn
+      pure (commit st txn, txn.map (fun e => (e.1, e.2.1)))
+
+/-- `PulseStorage.__setitem__(identifier, serializable)` -/
+def setitem (st : St) (i : Id) (t : T) : Except Err (St × List (Id × J)) :=
+  if t.id ≠ some i then throw .valueError
+  else match lookup i st.temp with
+    | some o => if o = t then pure (st, []) else throw .idTaken
+    | none => if hasKey i st.backend then throw .idTaken else overwrite st i t
+
+/-- `try: storage[i] = t  except: pass` — `overwrite` closes its transaction in a `finally` block and writes to
+the backend only after the whole transaction has been encoded, so a store that raises leaves the storage as it was -/
+def setitemTry (st : St) (i : Id) (t : T) : St × List (Id × J) × Bool :=
+  match setitem st i t with
+  | .ok (st', log) => (st', log, true)
+  | .error _ => (st, [], false)
+
+/-- store templates one after the other under their own identifiers (an anonymous root is rejected:
+`storage[None] = t` has no backend key) -/
+def storeAll (st : St) : List T → Except Err (St × List (Id × J))
+  | [] => pure (st, [])
+  | t :: ts =>
+      match t.id with
+      | none => throw .valueError
+      | some i => do
+          let (st1, log1) ← setitem st i t
+          let (st2, log2) ← storeAll st1 ts
+          pure (st2, log1 ++ log2)
+
+/-- `store ∅ t` -/
+def store (t : T) : Except Err (St × List (Id × J)) := storeAll {} [t]
+
+/-! ## Loading -/
+
+def shapeOk : Shape → Item → Bool
+  | .data, .data _ _ => true
+  | .child, .child _ _ => true
+  | .children, .children _ (_ :: _) => true
+  | .any, .data _ _ => true
+  | .any, .child _ _ => true
+  | _, _ => false
+
+def findItem (k : String) : List Item → Option Item
+  | [] => none
+  | it :: rest => if it.key = k then some it else findItem k rest
+
+/-- bind keyword arguments to the constructor signature: missing optional arguments get their default -/
+def fill : List Spec → List Item → Except Err (List Item)
+  | [], _ => pure []
+  | sp :: sps, kw => do
+      let rest ← fill sps kw
+      match findItem sp.key kw with
+      | some it => if shapeOk sp.shape it then pure (it :: rest) else throw .valueError
+      | none =>
+        match sp.kind with
+        | .req => throw .valueError
+        | .dflt d => pure (.data sp.key d :: rest)
+        | .omitDefault d => pure (.data sp.key d :: rest)
+        | .absent => pure rest
+
+/-- constructor checks that depend on the children -/
+def ctorCheck (cls : Cls) (items : List Item) : Except Err Unit :=
+  match cls with
+  | .mapping =>
+      -- `if isinstance(template, MappingPulseTemplate) and template.identifier is None:` the mappings are
+      -- composed and the inner template is adopted; expression composition is outside this model
+      match findItem "template" items with
+      | some (.child _ (.node .mapping none _)) => throw .unmodelled
+      | _ => pure ()
+  | .arith =>
+      -- exactly one operand is a pulse template (`TypeError` otherwise, wrapped into `ValueError`)
+      match findItem "lhs" items, findItem "rhs" items with
+      | some (.child _ _), some (.data _ _) => pure ()
+      | some (.data _ _), some (.child _ _) => pure ()
+      | _, _ => throw .valueError
+  | _ => pure ()
+
+/-- `ConstantPulseTemplate.deserialize`: the legacy key `#amplitudes` -/
+def legacy (cls : Cls) (kw : List Item) : List Item :=
+  match cls with
+  | .const => kw.map fun
+      | .data "#amplitudes" j => .data "amplitude_dict" j
+      | it => it
+  | _ => kw
+
+/-- `deserialization_callback(identifier=…, registry=…, **obj_dict)`; every exception of the constructor
+is re-raised as `ValueError` by `filter_serializables` -/
+def construct (cls : Cls) (id : Option Id) (kw : List Item) : Except Err T := do
+  let kw := legacy cls kw
+  if kw.any (fun it => !(schema cls).any (fun sp => sp.key = it.key)) then throw .valueError  -- unexpected keyword
+  let items ← fill (schema cls) kw
+  ctorCheck cls items
+  pure (.node cls id items)
+
+def stripHdr (kvs : List (String × J)) : List (String × J) :=
+  kvs.filter (fun kv => kv.1 ≠ typeKey && kv.1 ≠ idKey)
+
+/-- the `#identifier` entry of a document -/
+def idOf (kvs : List (String × J)) : Option Id :=
+  match lookup idKey kvs with
+  | some (.str i) => some i
+  | _ => none
+
+def mapMExcept {α β} (f : α → Except Err β) : List α → Except Err (List β)
+  | [] => pure []
+  | x :: xs => do
+      let y ← f x
+      let ys ← mapMExcept f xs
+      pure (y :: ys)
+
+/-- one value of a decoded dictionary: objects with a `#type` key have been replaced by the object
+`dec` builds from them, also inside (non-empty) lists -/
+def decValue (dec : J → Except Err T) : String × J → Except Err Item
+  | (k, .obj kvs) => if (lookup typeKey kvs).isSome then (dec (.obj kvs)).map (Item.child k) else pure (.data k (.obj kvs))
+  | (k, .arr (x :: xs)) =>
+      if (x :: xs).all J.isTyped then (mapMExcept dec (x :: xs)).map (Item.children k)
+      else pure (.data k (.arr (x :: xs)))
+  | (k, v) => pure (.data k v)
+
+/-- `JSONSerializableDecoder.filter_serializables` applied bottom-up, references resolved through the
+storage (here: straight from the backend, see `loadC` for the cache). The fuel is the recursion depth. -/
+def decT : Nat → Store → J → Except Err T
+  | 0, _, _ => throw .fuel
+  | f + 1, s, .obj kvs =>
+      match lookup typeKey kvs with
+      | some (.str ty) =>
+          if ty = "reference" then
+            match lookup idKey kvs with
+            | some (.str i) =>
+                match lookup i s with
+                | some d => decT f s d
+                | none => throw .keyError
+            | _ => throw .refWithoutId
+          else
+            match Cls.ofTypeName ty with
+            | none => throw .unknownType
+            | some cls => do
+                let kw ← mapMExcept (decValue (decT f s)) (stripHdr kvs)
+                construct cls (idOf kvs) kw
+      | _ => throw .notSerializable
+  | _ + 1, _, _ => throw .notSerializable
+
+/-- a fresh `PulseStorage` over the backend: `storage[i]` -/
+def load (fuel : Nat) (s : Store) (i : Id) : Except Err T :=
+  match lookup i s with
+  | some d => decT fuel s d
+  | none => throw .keyError
+
+/-! ### Loading with the temporary storage as cache
+
+`PulseStorage.__getitem__` deserialises an identifier at most once; later requests (also from other
+parents' references) return the cached object. The log records every identifier whose document was
+deserialised into a new object. -/
+
+structure Cache where
+  objs : List (Id × T) := []
+  built : List Id := []
+
+/-- `storage[i]` with cache: a cached object is returned as it is; otherwise the document is decoded
+with `dec`, the object is cached and `i` is logged as built -/
+def getC (dec : Cache → J → Except Err (T × Cache)) (s : Store) (c : Cache) (i : Id) : Except Err (T × Cache) :=
+  match lookup i c.objs with
+  | some o => pure (o, c)
+  | none =>
+    match lookup i s with
+    | some d => do
+        let (o, c') ← dec c d
+        pure (o, { objs := put i o c'.objs, built := c'.built ++ [i] })
+    | none => throw .keyError
+
+def mapMC (dec : Cache → J → Except Err (T × Cache)) : Cache → List J → Except Err (List T × Cache)
+  | c, [] => pure ([], c)
+  | c, x :: xs => do
+      let (o, c1) ← dec c x
+      let (os, c2) ← mapMC dec c1 xs
+      pure (o :: os, c2)
+
+def decValueC (dec : Cache → J → Except Err (T × Cache)) (c : Cache) : String × J → Except Err (Item × Cache)
+  | (k, .obj kvs) =>
+      if (lookup typeKey kvs).isSome then do
+        let (o, c1) ← dec c (.obj kvs)
+        pure (.child k o, c1)
+      else pure (.data k (.obj kvs), c)
+  | (k, .arr (x :: xs)) =>
+      if (x :: xs).all J.isTyped then do
+        let (os, c1) ← mapMC dec c (x :: xs)
+        pure (.children k os, c1)
+      else pure (.data k (.arr (x :: xs)), c)
+  | (k, v) => pure (.data k v, c)
+
+def mapMItemsC (dec : Cache → J → Except Err (T × Cache)) : Cache → List (String × J) → Except Err (List Item × Cache)
+  | c, [] => pure ([], c)
+  | c, kv :: rest => do
+      let (it, c1) ← decValueC dec c kv
+      let (its, c2) ← mapMItemsC dec c1 rest
+      pure (it :: its, c2)
+
+def decTC : Nat → Store → Cache → J → Except Err (T × Cache)
+  | 0, _, _, _ => throw .fuel
+  | f + 1, s, c, .obj kvs =>
+      match lookup typeKey kvs with
+      | some (.str ty) =>
+          if ty = "reference" then
+            match lookup idKey kvs with
+            | some (.str i) => getC (decTC f s) s c i
+            | _ => throw .refWithoutId
+          else
+            match Cls.ofTypeName ty with
+            | none => throw .unknownType
+            | some cls => do
+                let (kw, c') ← mapMItemsC (decTC f s) c (stripHdr kvs)
+                let o ← construct cls (idOf kvs) kw
+                pure (o, c')
+      | _ => throw .notSerializable
+  | _ + 1, _, _, _ => throw .notSerializable
+
+/-- `storage[i]` on a `PulseStorage` with temporary storage `c` -/
+def loadC (fuel : Nat) (s : Store) (c : Cache) (i : Id) : Except Err (T × Cache) :=
+  getC (decTC fuel s) s c i
+
+/-! ## Well-formed template objects (what `__init__` guarantees)
+
+`Aligned`: the attributes are those of the class, in schema order; `absent` ones may be missing. -/
+
+def alignedB : List Spec → List Item → Bool
+  | [], [] => true
+  | [], _ :: _ => false
+  | sp :: sps, [] => (match sp.kind with | .absent => true | _ => false) && alignedB sps []
+  | sp :: sps, it :: its =>
+      if it.key = sp.key then shapeOk sp.shape it && alignedB sps its
+      else (match sp.kind with | .absent => true | _ => false) && alignedB sps (it :: its)
+
+def ctorOk (cls : Cls) (items : List Item) : Bool :=
+  match ctorCheck cls items with
+  | .ok _ => true
+  | .error _ => false
+
+mutual
+def T.wf : T → Bool
+  | .node cls _ items => alignedB (schema cls) items && ctorOk cls items && Item.wfL items
+def Item.wfL : List Item → Bool
+  | [] => true
+  | .data _ j :: rest => j.plain && Item.wfL rest
+  | .child _ t :: rest => t.wf && Item.wfL rest
+  | .children _ ts :: rest => !ts.isEmpty && T.wfL ts && Item.wfL rest
+def T.wfL : List T → Bool
+  | [] => true
+  | t :: ts => t.wf && T.wfL ts
+end
+
+/-- Identifiers name objects: two named nodes of the forest with the same identifier are the same
+object (a named object may be shared by several parents). -/
+def UniqueIds (ts : List T) : Prop :=
+  ∀ a ∈ ts.flatMap namedSub, ∀ b ∈ ts.flatMap namedSub, a.id = b.id → a = b
+
+def uniqueIdsB (ts : List T) : Bool :=
+  let ns := ts.flatMap namedSub
+  ns.all fun a => ns.all fun b => a.id ≠ b.id || a = b
+
+/-! ## Line protocol
+
+```
+(c10 store (<tree> …))     → (ok (writes i…) (docs (i <json>)…) (refs (i (r…))…)) | (error <class>)
+(c10 load <fuel> ((i <json>)…) i)   → (ok <tree> (built i…)) | (error <class>)
+(c10 wf <tree>)             → (wf true|false) (unique true|false)
+tree  ::= (n <cls> <id|-> (<item>…))      item ::= (d k <json>) | (c k <tree>) | (cs k <tree>…)
+json  ::= (a tok) | (s str) | (arr <json>…) | (obj (k <json>)…)
+```
+-/
 open Sexp
 
+def Cls.tag : Cls → String
+  | .table => "table" | .point => "point" | .func => "func" | .const => "const" | .seq => "seq"
+  | .rep => "rep" | .forLoop => "forloop" | .mapping => "mapping" | .amc => "amc" | .par => "par"
+  | .arithAtomic => "arithatomic" | .arith => "arith" | .timeRev => "timerev" | .abstr => "abstract"
+
+def Cls.ofTag (s : String) : Option Cls := Cls.all.find? (fun c => c.tag = s)
+
+mutual
+def jOfSexp : Sexp → Option J
+  | .list [.atom "a", .atom t] => some (.atom t)
+  | .list [.atom "s", .atom t] => some (.str t)
+  | .list (.atom "arr" :: xs) => (jsOfSexp xs).map J.arr
+  | .list (.atom "obj" :: kvs) => (kvsOfSexp kvs).map J.obj
+  | _ => none
+def jsOfSexp : List Sexp → Option (List J)
+  | [] => some []
+  | x :: xs => do
+      let j ← jOfSexp x
+      let js ← jsOfSexp xs
+      pure (j :: js)
+def kvsOfSexp : List Sexp → Option (List (String × J))
+  | [] => some []
+  | .list [.atom k, v] :: rest => do
+      let j ← jOfSexp v
+      let r ← kvsOfSexp rest
+      pure ((k, j) :: r)
+  | _ :: _ => none
+end
+
+mutual
+def sexpOfJ : J → Sexp
+  | .atom t => .list [.atom "a", .atom t]
+  | .str t => .list [.atom "s", .atom t]
+  | .arr xs => .list (.atom "arr" :: sexpOfJs xs)
+  | .obj kvs => .list (.atom "obj" :: sexpOfKvs kvs)
+def sexpOfJs : List J → List Sexp
+  | [] => []
+  | x :: xs => sexpOfJ x :: sexpOfJs xs
+def sexpOfKvs : List (String × J) → List Sexp
+  | [] => []
+  | (k, v) :: rest => .list [.atom k, sexpOfJ v] :: sexpOfKvs rest
+end
+
+mutual
+def tOfSexp : Sexp → Option T
+  | .list [.atom "n", .atom c, .atom i, .list items] => do
+      let cls ← Cls.ofTag c
+      let its ← itemsOfSexp items
+      pure (.node cls (if i = "-" then none else some i) its)
+  | _ => none
+def itemsOfSexp : List Sexp → Option (List Item)
+  | [] => some []
+  | .list [.atom "d", .atom k, j] :: rest => do
+      let v ← jOfSexp j
+      let r ← itemsOfSexp rest
+      pure (.data k v :: r)
+  | .list [.atom "c", .atom k, t] :: rest => do
+      let v ← tOfSexp t
+      let r ← itemsOfSexp rest
+      pure (.child k v :: r)
+  | .list (.atom "cs" :: .atom k :: ts) :: rest => do
+      let v ← tsOfSexp ts
+      let r ← itemsOfSexp rest
+      pure (.children k v :: r)
+  | _ :: _ => none
+def tsOfSexp : List Sexp → Option (List T)
+  | [] => some []
+  | t :: ts => do
+      let v ← tOfSexp t
+      let r ← tsOfSexp ts
+      pure (v :: r)
+end
+
+mutual
+def sexpOfT : T → Sexp
+  | .node cls id items =>
+      .list [.atom "n", .atom cls.tag, .atom (id.getD "-"), .list (sexpOfItems items)]
+def sexpOfItems : List Item → List Sexp
+  | [] => []
+  | .data k j :: rest => .list [.atom "d", .atom k, sexpOfJ j] :: sexpOfItems rest
+  | .child k t :: rest => .list [.atom "c", .atom k, sexpOfT t] :: sexpOfItems rest
+  | .children k ts :: rest => .list (.atom "cs" :: .atom k :: sexpOfTs ts) :: sexpOfItems rest
+def sexpOfTs : List T → List Sexp
+  | [] => []
+  | t :: ts => sexpOfT t :: sexpOfTs ts
+end
+
+def errS (e : Err) : Sexp :=
+  .list [.atom "error", .atom (match e with
+    | .valueError => "value_error" | .idTaken => "id_taken" | .keyError => "key_error"
+    | .refWithoutId => "ref_without_id" | .unknownType => "unknown_type"
+    | .notSerializable => "not_serializable" | .unmodelled => "unmodelled" | .fuel => "fuel")]
+
+def storeOfSexp : List Sexp → Option Store
+  | [] => some []
+  | .list [.atom i, j] :: rest => do
+      let d ← jOfSexp j
+      let r ← storeOfSexp rest
+      pure ((i, d) :: r)
+  | _ :: _ => none
+
 def handle : List Sexp → Sexp
-  | _ => Sexp.err "c10-not-implemented"
+  | [.atom "store", .list ts] =>
+    match tsOfSexp ts with
+    | none => Sexp.err "bad-tree"
+    | some ts =>
+      match storeAll {} ts with
+      | .error e => errS e
+      | .ok (st, log) =>
+        .list [.atom "ok",
+               .list (.atom "writes" :: log.map (fun e => Sexp.atom e.1)),
+               .list (.atom "docs" :: st.backend.map fun (i, d) => .list [.atom i, sexpOfJ d]),
+               .list (.atom "refs" :: st.backend.map fun (i, d) => .list [.atom i, .list (d.refs.map Sexp.atom)])]
+  | [.atom "load", fuel, .list docs, .atom i] =>
+    match nat? fuel, storeOfSexp docs with
+    | some f, some s =>
+      match loadC f s {} i with
+      | .error e => errS e
+      | .ok (t, c) => .list [.atom "ok", sexpOfT t, .list (.atom "built" :: c.built.map Sexp.atom)]
+    | _, _ => Sexp.err "bad-args"
+  | [.atom "wf", t] =>
+    match tOfSexp t with
+    | none => Sexp.err "bad-tree"
+    | some t => .list [.list [.atom "wf", ofBool t.wf], .list [.atom "unique", ofBool (uniqueIdsB [t])],
+                       .list [.atom "depth", ofNat (depth t)]]
+  | _ => Sexp.err "c10-unknown-request"
 
 end QP.C10
